@@ -38,7 +38,7 @@ Section Inv.
   Lemma frame_set_radius l v k l' : set_radius l v k = Some l' -> frame l l'.
   Proof.
     unfold set_radius. destruct (nthS l k); [|discriminate]. intros E; injection E as <-.
-    apply frame_upd_surf. intros s0. destruct (s_kind s0); reflexivity.
+    apply frame_upd_surf. intros s0. unfold set_radius_fun. destruct (s_kind s0); destruct (isinf_ v); reflexivity.
   Qed.
   Lemma frame_set_conic l v k l' : set_conic l v k = Some l' -> frame l l'.
   Proof.
